@@ -154,3 +154,20 @@ class time_limit:  # noqa: N801
         if self._remaining:
             signal.alarm(max(1, self._remaining - self.seconds))
         return False
+
+
+def term_scales(model, t: float, y: list[float]) -> list[float]:  # noqa: ANN001
+    """Per variable (declaration order): sum over fluxes of |coefficient x flux| at this state - the magnitude against
+    which a derivative's rounding error is measured (a derivative can be a small difference of large terms, and a model
+    in other units has derivatives of 1e-9 or 1e+9 that deserve the same relative scrutiny as ones of order 1)."""
+    names = model.get_variable_names()
+    st = dict(zip(names, y))
+    n_ = model.get_stoichiometries(st, t)
+    v = model.get_fluxes(st, t)
+    out = []
+    for name in names:
+        if name in n_.index:
+            out.append(float(sum(abs(float(n_.loc[name, f]) * float(v[f])) for f in n_.columns)))
+        else:
+            out.append(0.0)
+    return out
